@@ -421,7 +421,8 @@ Inductive tform := TForm (e : sexp) | TQuote (name : string).   (* Code.Compile 
 Inductive op :=
 | OLoad (cid : nat) (forms : list sexp)   (* slip.ReadString *)
 | OCompile (cid : nat)                    (* Code.Compile *)
-| ORun (cid : nat).                       (* Code.Eval in the top-level scope *)
+| ORun (cid : nat)                        (* Code.Eval in the top-level scope *)
+| OFmak (name : string).                  (* (fmakunbound 'name) evaluated at top level *)
 
 Fixpoint syms (l : list sexp) : option (list string) :=
   match l with
@@ -551,6 +552,14 @@ Definition compile_rest (st : state) (fs : list tform) : state :=
                         | TForm e => match parse_letdefun e with Some _ => s | None => compile_slot s e end
                         | TQuote _ => s end) fs st.
 
+(* Package.Undefine (fmakunbound): the FuncInfo of the name is removed from Package.funcs; the Lambda registered in
+   Package.lambdas stays (so that a later defun patches the Lambda the compiled callers hold) - and so do the
+   compiled callers, which keep calling it as it is *)
+Fixpoint sremove {A} (k : string) (l : list (string * A)) : list (string * A) :=
+  match l with [] => [] | (k', v) :: r => if String.eqb k k' then sremove k r else (k', v) :: sremove k r end.
+Definition fmakM (st : state) (name : string) : state :=
+  mkSt (heap st) (lambdas st) (sremove name (funcs st)) (marks st) (out st).
+
 Record mstate := mkM { ms : state; mgv : env; codes : list (nat * list tform) }.
 Definition minit : mstate := mkM init [] [].
 Definition obs := (res * list value)%type.
@@ -574,6 +583,7 @@ Definition stepM (n : nat) (m : mstate) (o : op) : mstate * option obs :=
       | Some fs => let '(r, st1, gv1) := run_forms n (set_out (ms m) []) (mgv m) fs VNil in
                    (mkM st1 gv1 (codes m), Some (r, out st1))
       end
+  | OFmak name => (mkM (fmakM (ms m) name) (mgv m) (codes m), None)
   end.
 Fixpoint runM (n : nat) (m : mstate) (ops : list op) : list obs :=
   match ops with
